@@ -349,18 +349,31 @@ def c06_grad(d):
   elif cls == "quantized_relu":
     slope = 0.25 if "leaky" in variant else 0.0
     ste = "noste" not in variant
-    q = C(bits, integer, 0, slope, qnoise_factor=f, use_ste=ste)
+    clipk = rep.get("clip", "q")
+    kw2 = {"qnoise_factor": f, "use_ste": ste}
+    if clipk == "ub":
+      kw2.update({"relu_upper_bound": 6.0, "is_quantized_clip": False})
+    elif clipk == "noclip":
+      kw2.update({"is_quantized_clip": False})
+    q = C(bits, integer, 0, slope, **kw2)
     n = bits - (1 if slope else 0)
-    top = 2.0 ** integer - 2.0 ** (integer - n)
+    top = {"q": 2.0 ** integer - 2.0 ** (integer - n), "ub": 6.0, "noclip": float("inf")}[clipk]
     sur = 0.0 if x0 > top else (1.0 if x0 > 0 else slope)
     exp = sur if ste else (1 - f) * sur
   elif cls == "quantized_po2":
-    q = C(bits, qnoise_factor=f, use_ste=(variant == "ste"))
-    exp = 1.0 if variant == "ste" else 1 - f
+    ste = "noste" not in variant
+    mv = 2.0 ** int(rep["mvexp"]) if "mvexp" in rep else None
+    q = C(bits, mv, qnoise_factor=f, use_ste=ste)
+    exp = 1.0 if ste else 1 - f
   elif cls == "quantized_relu_po2":
     slope = 0.25 if "leaky" in variant else 0
-    q = C(bits, None, slope, qnoise_factor=f)
-    exp = 1.0 if x0 > 0 else slope
+    ste = "noste" not in variant
+    mv = 2.0 ** int(rep["mvexp"]) if "mvexp" in rep else None
+    q = C(bits, mv, slope, qnoise_factor=f, use_ste=ste)
+    base = 1.0 if x0 > 0 else slope
+    if mv is not None and x0 > mv:
+      base = 0.0
+    exp = base if ste else (1 - f) * base
   elif cls in ("binary", "ternary"):
     alpha = rep.get("alpha")
     q = C(False, alpha) if cls == "binary" else C(alpha, 0.5)
@@ -468,6 +481,8 @@ def c09_rt(d):
       v = float(Fraction(v))
     kw[k] = v
   clause = d["clause"]
+  if rep.get("pts_shape") and kw.get("post_training_scale") is not None:
+    kw["post_training_scale"] = np.full(tuple(rep["pts_shape"]), float(kw["post_training_scale"]), dtype=np.float32)
   try:
     q = cls(**kw)
     cfg = q.get_config()
@@ -475,7 +490,11 @@ def c09_rt(d):
     return {"status": "error", "detail": "construction failed natively: %s" % e}
   try:
     q2 = cls.from_config(dict(cfg))
-    q3 = quantizers.get_quantizer({"class_name": rep["class"], "config": dict(cfg)})
+    # harness-side shim: the pinned Keras 3 ignores module_objects=globals(); resolve qkeras names through a scope
+    import tensorflow.keras.utils as ku
+    objs = {k: v for k, v in vars(quantizers).items() if isinstance(v, type)}
+    with ku.custom_object_scope(objs):
+      q3 = quantizers.get_quantizer({"class_name": rep["class"], "config": dict(cfg)})
   except Exception as e:  # pylint: disable=broad-except
     return {"status": "confirmed", "observed": "rebuild raised %s: %s" % (type(e).__name__, e)}
   if clause == "no_raise":
@@ -502,3 +521,58 @@ def c09_rt(d):
                                                     "original": str(outs[0].reshape(-1)[:6]), "rebuilt": str(o if isinstance(o, str) else o.reshape(-1)[:6])},
                 "expected": "identical outputs"}
   return {"status": "refuted", "observed": {"probes": len(probes)}}
+
+
+@replayer("c10_str")
+def c10_str(d):
+  """str(q) -> get_quantizer(text) natively; compare on probe tensors."""
+  import tensorflow as tf
+  from qkeras import quantizers
+  shims.install_learning_phase()
+  w = d["witness"]
+  rep = w["__replay__"]
+  cls = getattr(quantizers, rep["class"])
+  kw = {}
+  for k, v in rep["kwargs"].items():
+    if isinstance(v, str) and v not in ("auto", "auto_po2", "rnd", "floor", "v"):
+      v = float(Fraction(v))
+    kw[k] = v
+  try:
+    q = cls(**kw)
+  except Exception as e:  # pylint: disable=broad-except
+    return {"status": "error", "detail": "construction failed natively: %s" % e}
+  try:
+    text = str(q)
+  except Exception as e:  # pylint: disable=broad-except
+    return {"status": "confirmed", "observed": "str() raised %s: %s" % (type(e).__name__, e)}
+  if d["clause"] == "no_raise":
+    return {"status": "refuted", "observed": text}
+  try:
+    q2 = quantizers.get_quantizer(text)
+  except Exception as e:  # pylint: disable=broad-except
+    return {"status": "confirmed", "observed": {"text": text, "reparse": "raised %s: %s" % (type(e).__name__, e)}}
+  rng = np.random.RandomState(7)
+  shape = (4, 6)
+  probes = [rng.uniform(-2, 2, size=shape).astype(np.float32), rng.uniform(-9, 9, size=shape).astype(np.float32),
+            np.linspace(-3, 3, 24).reshape(shape).astype(np.float32)]
+  for x in probes:
+    outs = []
+    for qq in (q, q2):
+      tf.random.set_seed(3)
+      try:
+        outs.append(np.array(qq(tf.constant(x))))
+      except Exception as e:  # pylint: disable=broad-except
+        outs.append("raised %s" % type(e).__name__)
+    if isinstance(outs[0], str):
+      continue
+    if isinstance(outs[1], str) or not np.array_equal(outs[0], outs[1]):
+      return {"status": "confirmed", "observed": {"text": text, "kwargs": {k: str(v) for k, v in kw.items()},
+                                                  "original": str(outs[0].reshape(-1)[:6]),
+                                                  "reparsed": str(outs[1] if isinstance(outs[1], str) else outs[1].reshape(-1)[:6])}}
+  # same outputs on the probes: compare the constructor-visible state as a last resort
+  diff = {k: (str(getattr(q, k, None)), str(getattr(q2, k, None))) for k in kw
+          if str(getattr(q, k, None)) != str(getattr(q2, k, None))}
+  diff = {k: v for k, v in diff.items() if k not in ("var_name", "use_variables", "use_ste")}
+  if diff:
+    return {"status": "confirmed", "observed": {"text": text, "options_lost": diff}}
+  return {"status": "refuted", "observed": {"text": text}}
